@@ -603,7 +603,7 @@ theorem Shrinks.storeOK {s s' : St} (h : Shrinks s s') (ok : StoreOK s) : StoreO
   · exact (sf.map _).nodup ok.factsNodup
   · exact (ss.map _).nodup ok.storeNodup
 
-theorem St.fuel_succ (s : St) : s.fuel = (6 * s.facts.length + 11) + 1 := by unfold St.fuel; omega
+theorem St.fuel_succ (s : St) : s.fuel = (6 * s.facts.length + 11 + tiWidth s.ti) + 1 := by unfold St.fuel; omega
 
 /-- `Rem` (either kind), whatever its result: facts and storage shrink together -/
 theorem St.rem_shrinks (s : St) (id : String) (now : Int) : Shrinks s (s.rem id now).1 := by
